@@ -1264,11 +1264,9 @@ fn check_spec_reserved_keys(key: &[u8], mut value: &[u8]) -> Result<(), Error> {
         IP6_ENR_KEY => {
             Ipv6Addr::decode(&mut value)?;
         }
-        b"secp256k1" => {
-            #[cfg(all(feature = "k256", not(feature = "rust-secp256k1")))]
-            <Enr<k256::ecdsa::SigningKey>>::decode(&mut value)?;
-            #[cfg(feature = "rust-secp256k1")]
-            <Enr<secp256k1::SecretKey>>::decode(&mut value)?;
+        b"secp256k1" | b"ed25519" => {
+            // public keys are byte strings, exactly as the decoder reads them
+            Header::decode_bytes(&mut value, false)?;
         }
         _ => return Ok(()),
     };
